@@ -839,12 +839,19 @@ def do_fetch(ctx, W, case, src_name, tgt_name, rev, find_ghosts, mode, batch):
                 for r_, (ps_, _m) in st_["revs"].items():
                     if any(p_ not in pre_s["revs"] or p_ not in post_t["revs"] for p_ in ps_):
                         sensitive.add(r_)
+            if not is_closed(post_t, pre_s) and "inconsistent_parents" in tp:
+                # the target's revision graph has a hole the source's has not (a ghost left unfilled): what check()
+                # expects as per-file parents of the descendants differs between the two graphs
+                ctx.count("check:inconsistent-parents-not-compared(target-graph-has-a-hole)")
+                del tp["inconsistent_parents"]
             for probs in (tp, sp):
                 # per-file parents recorded while a parent of the revision was a ghost look "inconsistent"
-                # wherever that parent is present: not a property of the copy
+                # wherever that parent is present: not a property of the copy; neither is what check() says
+                # about revisions the target held before (their per-file parents are compared by the monotone test)
                 if "inconsistent_parents" in probs:
                     keep = [x for x in probs["inconsistent_parents"]
-                            if not any(x.startswith("(%r, " % g) for g in sensitive)]
+                            if not any(x.startswith("(%r, " % g) for g in sensitive)
+                            and (probs is sp or any(x.startswith("(%r, " % g) for g in new))]
                     if len(keep) != len(probs["inconsistent_parents"]):
                         ctx.count("check:inconsistent-parents-of-ghost-merges-ignored")
                     if keep:
